@@ -6,14 +6,16 @@ C46 — WebDAV COPY and MOVE never destroy their source.
 Model: `WebdavCopyMove.handle` (= `Handler.handleCopyMove` ∘ `copyFiles`/`moveFiles` over the
 `memFS` model), for an arbitrary lock gate, prefix, tree and request.
 
-* `CopyStatement handle` / `MoveStatement handle` are the property at full strength.  Both are
-  FALSE for the code as it is (`copy_full_false`, `move_full_false`, concrete witnesses): the
-  handler compares source and destination textually, the filesystem resolves them after cleaning.
-* `copy_holds_partial` / `move_holds_partial`: the property holds outside the decidable regions
-  `copyRegion` (destination resolves to the source or to one of its ancestors) and `moveRegion`
-  (source and destination resolve to the same resource or one contains the other).
-* `fixed_copy` / `fixed_move`: with the minimal fix (`handleFixed`: compare cleaned paths and refuse
-  those regions) the full statements hold.
+* `copy_holds : CopyStatement handle`, `move_holds : MoveStatement handle` — the property at full
+  strength, for every gate, prefix, tree and request.
+* They rest on `copyFiles_outside` (copyFiles writes only at or below its destination),
+  `moveFiles_partial` (non-overlapping MOVE moves the subtree as a whole or leaves it) and
+  `handle_overlap_refused` (the handler refuses, before touching the filesystem, a destination whose
+  cleaned name is the source or an ancestor of it and, for MOVE, a destination inside the source).
+* History: before the upstream repair ("fix: webdav: COPY/MOVE compared source and destination
+  textually") both statements were false — `COPY /a → /a/`, `COPY|MOVE /a/x → /a`, `MOVE /a → /a/x`
+  destroyed (part of) the source.  Those requests are kept as `example`s (now 403, tree unchanged) and in
+  `corpus/C46/findings.ops`.
 -/
 namespace NetVerif.Proofs.C46
 open NetVerif.Model.FS NetVerif.Model.WebdavCopyMove NetVerif.Proofs.Lemmas.FS
@@ -217,24 +219,33 @@ theorem handle_locked (gate : Gate) (pre : List Nat) (t : Tree) (r : Req) (host 
   cases hm : r.isMove <;> simp only [hm] at hg <;> repeat' split
   all_goals first | rfl | simp_all
 
+/-! ### Overlapping source and destination are refused -/
+
+/-- The handler refuses (403 or an earlier status) every request in the region, leaving the tree alone. -/
+theorem handle_overlap_refused (gate : Gate) (pre : List Nat) (t : Tree) (r : Req) (host : HostClass)
+    (dpath src dst : List Nat) (hdest : r.dest = .parsed host dpath)
+    (hs : stripPrefix pre r.path = some src) (hd : stripPrefix pre dpath = some dst)
+    (hreg : under (clean dst) (clean src) = true ∨ (r.isMove = true ∧ under (clean src) (clean dst) = true)) :
+    (handle gate pre t r).1 = t := by
+  unfold handle; rw [hdest]; simp only [hs, hd]
+  repeat' split
+  all_goals first | rfl | simp_all
+
 /-! ### COPY -/
 
-theorem copy_holds_partial (gate : Gate) (pre : List Nat) (t : Tree) (r : Req) (host : HostClass)
-    (dpath src dst : List Nat)
-    (hm : r.isMove = false) (hdest : r.dest = .parsed host dpath)
-    (hs : stripPrefix pre r.path = some src) (hd : stripPrefix pre dpath = some dst)
-    (hreg : copyRegion (clean src) (clean dst) = false) :
-    srcView (clean src) (clean dst) (handle gate pre t r).1 = srcView (clean src) (clean dst) t := by
-  unfold copyRegion at hreg
-  unfold handle; rw [hdest]; simp only [hs, hd, hm]
-  repeat' split
-  all_goals first
-    | rfl
-    | (simp only [srcView, hreg]
-       rw [copyFiles_outside _ _ _ _ _ _ _ (under_refl _)]
-       simp)
-    | simp_all
-
+theorem copy_holds : CopyStatement handle := by
+  intro gate pre t r host dpath src dst hm hdest hs hd
+  cases hreg : under (clean dst) (clean src) with
+  | true => rw [handle_overlap_refused gate pre t r host dpath src dst hdest hs hd (Or.inl hreg)]
+  | false =>
+    unfold handle; rw [hdest]; simp only [hs, hd, hm]
+    repeat' split
+    all_goals first
+      | rfl
+      | (simp only [srcView, hreg]
+         rw [copyFiles_outside _ _ _ _ _ _ _ (under_refl _)]
+         simp)
+      | simp_all
 
 /-! ### MOVE -/
 
@@ -289,29 +300,24 @@ theorem moveFiles_partial (t : Tree) (S D : Path) (ow : Bool)
       · rw [sub_outside_incomparable h1 h2, sub_outside_self, sub_rebase_incomparable h1 h2]; rfl
       · rw [sub_outside_self, sub_rebase_dst, hsub]; rfl
 
-theorem move_holds_partial (gate : Gate) (pre : List Nat) (t : Tree) (r : Req) (host : HostClass)
-    (dpath src dst : List Nat)
-    (hm : r.isMove = true) (hdest : r.dest = .parsed host dpath)
-    (hs : stripPrefix pre r.path = some src) (hd : stripPrefix pre dpath = some dst)
-    (hreg : moveRegion (clean src) (clean dst) = false) :
-    sub (handle gate pre t r).1 (clean src) = sub t (clean src) ∨
-    (sub (handle gate pre t r).1 (clean src) = [] ∧
-     sub (handle gate pre t r).1 (clean dst) = rebase (clean src) (clean dst) (sub t (clean src))) := by
-  unfold moveRegion at hreg
-  have h1 : under (clean dst) (clean src) = false := by
-    cases h : under (clean dst) (clean src) <;> simp_all
-  have h2 : under (clean src) (clean dst) = false := by
-    cases h : under (clean src) (clean dst) <;> simp_all
-  unfold handle; rw [hdest]; simp only [hs, hd, hm]
-  repeat' split
-  all_goals first
-    | (left; rfl)
-    | exact moveFiles_partial _ _ _ _ h1 h2
-    | simp_all
+theorem move_holds : MoveStatement handle := by
+  intro gate pre t r host dpath src dst hm hdest hs hd
+  by_cases hreg : under (clean dst) (clean src) = true ∨ (r.isMove = true ∧ under (clean src) (clean dst) = true)
+  · rw [handle_overlap_refused gate pre t r host dpath src dst hdest hs hd hreg]; left; rfl
+  · have h1 : under (clean dst) (clean src) = false := by
+      cases h : under (clean dst) (clean src) <;> simp_all
+    have h2 : under (clean src) (clean dst) = false := by
+      cases h : under (clean src) (clean dst) <;> simp_all
+    unfold handle; rw [hdest]; simp only [hs, hd, hm]
+    repeat' split
+    all_goals first
+      | (left; rfl)
+      | exact moveFiles_partial _ _ _ _ h1 h2
+      | simp_all
 
-/-! ### The code as it is violates both full statements (concrete witnesses) -/
+/-! ### The requests that used to destroy their source: now refused, tree unchanged -/
 
-/-- A gate that always confirms (e.g. `memLS` with no locks held by anybody else). -/
+/-- A gate that always confirms. -/
 def openGate : Gate := fun _ _ _ _ => none
 
 /-- `/a` (collection) with one member `/a/x`. -/
@@ -342,121 +348,26 @@ def moveInsideReq : Req :=
   { isMove := true, path := [47, 97], dest := .parsed .none [47, 97, 47, 120],
     overwrite := .t, depth := .absent, ifTokens := none }
 
-/-- 404, and the member `/a/x` is gone. -/
-theorem witness_copy_equivalent :
-    handle (memGate []) [] treeA copyEquivReq = ([([[97]], .dir)], 404) := by decide +kernel
+/-- Formerly 404 with `/a/x` gone. -/
+theorem regress_copy_equivalent : handle (memGate []) [] treeA copyEquivReq = (treeA, 403) := by decide +kernel
+/-- Formerly 204 with `/a` replaced by its former member. -/
+theorem regress_copy_ancestor : handle (memGate []) [] treeA copyAncestorReq = (treeA, 403) := by decide +kernel
+/-- Formerly 403 with `/a` and `/a/x` gone. -/
+theorem regress_move_ancestor : handle (memGate []) [] treeA moveAncestorReq = (treeA, 403) := by decide +kernel
+/-- Formerly 204 with `/a` gone. -/
+theorem regress_move_equivalent :
+    handle (memGate [some ⟨[[97]], false⟩]) [] treeA moveEquivReq = (treeA, 403) := by decide +kernel
+/-- Formerly 403 with `/a/x` deleted. -/
+theorem regress_move_inside : handle (memGate []) [] treeA moveInsideReq = (treeA, 403) := by decide +kernel
 
-/-- 204, and the collection `/a` has been replaced by a copy of its former member. -/
-theorem witness_copy_ancestor :
-    handle (memGate []) [] treeA copyAncestorReq = ([([[97]], .file [1])], 204) := by decide +kernel
+/-- COPY into the source's own subtree stays possible (RFC 4918 allows it): everything of the source
+except the destination is untouched. -/
+example : handle (memGate []) [] treeA
+    { isMove := false, path := [47, 97], dest := .parsed .none [47, 97, 47, 121], overwrite := .absent,
+      depth := .zero, ifTokens := none }
+    = ([([[97]], .dir), ([[97], [120]], .file [1]), ([[97], [121]], .dir)], 201) := by decide +kernel
 
-/-- 403, and both `/a` and `/a/x` are gone. -/
-theorem witness_move_ancestor :
-    handle (memGate []) [] treeA moveAncestorReq = ([], 403) := by decide +kernel
-
-/-- 204 ("moved"), and `/a` is gone; the client holds the lock on `/a` and submits its token. -/
-theorem witness_move_equivalent :
-    handle (memGate [some ⟨[[97]], false⟩]) [] treeA moveEquivReq = ([], 204) := by decide +kernel
-
-/-- 403, and the member `/a/x` (the destination) has been deleted although nothing was moved. -/
-theorem witness_move_inside :
-    handle (memGate []) [] treeA moveInsideReq = ([([[97]], .dir)], 403) := by decide +kernel
-
-theorem copy_full_false : ¬ CopyStatement handle := by
-  intro h
-  have := h (memGate []) [] treeA copyEquivReq .none [47, 97, 47] [47, 97] [47, 97, 47] rfl rfl rfl rfl
-  rw [witness_copy_equivalent] at this
-  revert this
-  decide +kernel
-
-/-- The second divergence class (destination is a proper ancestor) on its own. -/
-theorem copy_full_false_ancestor : ¬ CopyStatement handle := by
-  intro h
-  have := h (memGate []) [] treeA copyAncestorReq .none [47, 97] [47, 97, 47, 120] [47, 97] rfl rfl rfl rfl
-  rw [witness_copy_ancestor] at this
-  revert this
-  decide +kernel
-
-theorem move_full_false : ¬ MoveStatement handle := by
-  intro h
-  have := h (memGate []) [] treeA moveAncestorReq .none [47, 97] [47, 97, 47, 120] [47, 97] rfl rfl rfl rfl
-  rw [witness_move_ancestor] at this
-  revert this
-  decide +kernel
-
-theorem move_full_false_equivalent : ¬ MoveStatement handle := by
-  intro h
-  have := h (memGate [some ⟨[[97]], false⟩]) [] treeA moveEquivReq .none [47, 97, 47] [47, 97] [47, 97, 47]
-    rfl rfl rfl rfl
-  rw [witness_move_equivalent] at this
-  revert this
-  decide +kernel
-
-theorem move_full_false_inside : ¬ MoveStatement handle := by
-  intro h
-  have := h (memGate []) [] treeA moveInsideReq .none [47, 97, 47, 120] [47, 97] [47, 97, 47, 120]
-    rfl rfl rfl rfl
-  rw [witness_move_inside] at this
-  revert this
-  decide +kernel
-
-/-! ### With the minimal fix the full statements hold -/
-
-theorem handle_dst_empty (gate : Gate) (pre : List Nat) (t : Tree) (r : Req) (host : HostClass)
-    (dpath src : List Nat) (hdest : r.dest = .parsed host dpath)
-    (hs : stripPrefix pre r.path = some src) (hd : stripPrefix pre dpath = some []) :
-    (handle gate pre t r).1 = t := by
-  unfold handle; rw [hdest]; simp only [hs, hd]
-  split <;> rfl
-
-theorem fixed_copy : CopyStatement handleFixed := by
-  intro gate pre t r host dpath src dst hm hdest hs hd
-  unfold handleFixed
-  rw [hdest]; simp only [hs, hd]
-  split
-  · rw [handle_other_host gate pre t r dpath (by simp_all)]
-  · split
-    · rfl
-    · rename_i hc
-      by_cases hdst : dst = []
-      · subst hdst; rw [handle_dst_empty gate pre t r host dpath src hdest hs hd]
-      · have hreg : copyRegion (clean src) (clean dst) = false := by
-          unfold copyRegion
-          cases h : under (clean dst) (clean src) <;> simp_all
-        exact copy_holds_partial gate pre t r host dpath src dst hm hdest hs hd hreg
-
-theorem fixed_move : MoveStatement handleFixed := by
-  intro gate pre t r host dpath src dst hm hdest hs hd
-  unfold handleFixed
-  rw [hdest]; simp only [hs, hd]
-  split
-  · rw [handle_other_host gate pre t r dpath (by simp_all)]; left; rfl
-  · split
-    · left; rfl
-    · rename_i hc
-      by_cases hdst : dst = []
-      · subst hdst; rw [handle_dst_empty gate pre t r host dpath src hdest hs hd]; left; rfl
-      · have hreg : moveRegion (clean src) (clean dst) = false := by
-          unfold moveRegion
-          cases h1 : under (clean dst) (clean src) <;> cases h2 : under (clean src) (clean dst) <;> simp_all
-        exact move_holds_partial gate pre t r host dpath src dst hm hdest hs hd hreg
-
-/-- The fix refuses nothing outside the two regions: there `handleFixed` is `handle`. -/
-theorem fixed_agrees_outside (gate : Gate) (pre : List Nat) (t : Tree) (r : Req) (host : HostClass)
-    (dpath src dst : List Nat) (hdest : r.dest = .parsed host dpath)
-    (hs : stripPrefix pre r.path = some src) (hd : stripPrefix pre dpath = some dst)
-    (hreg : moveRegion (clean src) (clean dst) = false) :
-    handleFixed gate pre t r = handle gate pre t r := by
-  unfold moveRegion at hreg
-  unfold handleFixed
-  rw [hdest]; simp only [hs, hd]
-  split
-  · rfl
-  · split
-    · simp_all
-    · rfl
-
-/-! ### Non-vacuity: the hypotheses of the partial theorems are satisfiable by real transfers -/
+/-! ### Non-vacuity: real transfers satisfy the hypotheses -/
 
 /-- `COPY /a → /b` (Depth infinity): 201 and `/a`, `/a/x` are still there, with a copy below `/b`. -/
 example : handle (memGate []) [] treeA
